@@ -775,7 +775,7 @@ func TestVerifC18(t *testing.T) {
 	c18Enumerated(h)
 	n := 4000
 	if vu.Thorough() {
-		n = 70000
+		n = 60000
 	}
 	n = vu.EnvInt("VERIF_C18_SEGMENTS", n)
 	rng := vu.Rand(18)
